@@ -344,15 +344,17 @@ func c09JudgeInner(c c09Case, res opResult) string {
 			got := g[o]
 			gsum += got
 			var tol float64
+			// the normalising sum of a slice of n elements carries a relative error of up to n*u
+			nu := float64(len(offs)) * unitRound(c.x.Dtype())
 			switch {
 			case c.op == "Softmax" && f32:
-				tol = 2e-6 + 3e-5*ref
+				tol = 2e-6 + (3e-5+nu)*ref
 			case c.op == "Softmax":
-				tol = 1e-14 + 1e-12*ref
+				tol = 1e-14 + (1e-12+nu)*ref
 			case f32:
-				tol = 1e-5 * math.Max(1, math.Abs(ref))
+				tol = (1e-5 + nu) * math.Max(1, math.Abs(ref))
 			default:
-				tol = 1e-12 * math.Max(1, math.Abs(ref))
+				tol = (1e-12 + nu) * math.Max(1, math.Abs(ref))
 			}
 			if math.IsNaN(got) || math.IsInf(got, 0) {
 				if c.op == "LogSoftmax" && math.IsInf(got, -1) && ((f32 && ref < -3.4e38) || math.IsInf(ref, -1)) {
@@ -379,6 +381,7 @@ func c09JudgeInner(c c09Case, res opResult) string {
 			if !f32 {
 				lim = 1e-11
 			}
+			lim += 2 * float64(len(offs)) * unitRound(c.x.Dtype())
 			if math.Abs(gsum-1) > lim {
 				bad = fmt.Sprintf("slice %d sums to %v", no, gsum)
 			}
